@@ -1072,7 +1072,7 @@ func checkField(f ast.Expr, st *types.Struct) (*types.Var, error) {
 		return nil, fmt.Errorf("%v must be a string with the field name", f)
 	}
 	for i := 0; i < st.NumFields(); i++ {
-		if strings.EqualFold(strconv.Quote(st.Field(i).Name()), b.Value) {
+		if strconv.Quote(st.Field(i).Name()) == b.Value {
 			if isPrevented(st.Tag(i)) {
 				return nil, fmt.Errorf("%s is prevented from injecting by wire", b.Value)
 			}
